@@ -143,6 +143,24 @@ func groups(tier string) []group {
 			}})
 		}
 	}
+	// nesting far beyond every depth constant of the library (1023 / 1024) and well below the reference decoder's
+	// limit (10000): a chain of 1100 Rec.next messages with a value at every level, through Load (lazy and
+	// recursive: the whole chain must be in the tree) and the path lookups
+	gs = append(gs, group{"deep/recursive-chain-1100", func(tier string, yield func(core.Case) bool) {
+		s := pbref.ProgNested()
+		root := s.Root
+		rec := root.ByName("r").Msg
+		v := pbref.MsgVal(rec).Set(rec.ByName("v"), pbref.Int(pbref.KInt32, 1100))
+		for i := 1099; i >= 1; i-- {
+			v = pbref.MsgVal(rec).Set(rec.ByName("v"), pbref.Int(pbref.KInt32, int64(i))).Set(rec.ByName("next"), v)
+		}
+		m := pbref.NV{Name: "recursive-chain-1100", V: pbref.MsgVal(root).Set(root.ByName("r"), v)}
+		for _, fam := range []string{"Load"} {
+			if !yield(mkCase(s, m, fam, fam)) {
+				return
+			}
+		}
+	}})
 	// heap safety of the not-found result (see famOnePastEnd)
 	gs = append(gs, group{"heap-safety/one-past-end", func(tier string, yield func(core.Case) bool) {
 		s := pbref.ProgNested()
